@@ -23,8 +23,9 @@ import (
 
 var (
 	c11Names  = []string{"a", "b", "ab", "a-0", "a-b", "a.b", "0", "b-0"}
-	c11Owners = [][2]string{{"", ""}, {"StatefulSet", "app"}, {"ReplicaSet", "app-x"}, {"ReplicaSet", "app"}, {"TApp", "app"}, {"Job", "a-0"}, {"StatefulSet", "a.b"}}
-	c11Pools  = []string{"", "p", "p-1", "a.b"}
+	c11Owners = [][2]string{{"", ""}, {"StatefulSet", "app"}, {"ReplicaSet", "app-x"}, {"ReplicaSet", "app"}, {"TApp", "app"}, {"Job", "a-0"}, {"StatefulSet", "a.b"},
+		{"StatefulSetPlus", "app"}, {"ReplicaSetPlus", "app-x"}, {"TAppSet", "app"}} // kinds whose names start with a built-in kind
+	c11Pools = []string{"", "p", "p-1", "a.b"}
 )
 
 func c11Pod(ns, name string, owner [2]string, pool string) *corev1.Pod {
@@ -38,11 +39,24 @@ func c11Pod(ns, name string, owner [2]string, pool string) *corev1.Pod {
 	return p
 }
 
+// c11WantPrefix: the documented mapping from owner kind to the key's app-type prefix, written down independently: statefulset(s)
+// -> sts_, replicaset / deployment -> dp_, every other kind its own lower-cased name.
+func c11WantPrefix(kind string) string {
+	switch strings.ToLower(kind) {
+	case "statefulset", "statefulsets":
+		return "sts_"
+	case "replicaset", "deployment":
+		return "dp_"
+	}
+	return strings.ToLower(kind) + "_"
+}
+
 func c11KeysJob() Job {
 	return Job{Name: "keys/injective+roundtrip", Weight: 1, Run: func(deadline time.Time) *ScenResult {
 		t0 := time.Now()
 		r := newCaseResult()
 		byKey := map[string]string{}
+		byKeyOwner := map[string]string{}
 		for _, ns := range c11Names {
 			for _, name := range c11Names {
 				for _, ow := range c11Owners {
@@ -69,13 +83,19 @@ func c11KeysJob() Job {
 						wantApp, wantType := util.NoRefAppName, util.NoRefAppTypePrefix
 						if ow[0] != "" {
 							wantApp = ow[1]
-							wantType = util.GetAppTypePrefix(ow[0])
+							wantType = c11WantPrefix(ow[0])
 							if ow[0] == "ReplicaSet" {
 								if i := strings.LastIndex(ow[1], "-"); i >= 0 {
 									wantApp = ow[1][:i]
 								}
 							}
 						}
+						// pods of different kinds of workloads never share a key, even with equal namespace, app and pod names
+						cls := wantType + "|" + wantApp
+						if prev, ok := byKeyOwner[k.KeyInDB]; ok && prev != cls+"|"+id {
+							r.violate("C11", "keys", "format", "two-owners-one-key", "FormatKey", fmt.Sprintf("%s and %s both map to %s", prev, cls+"|"+id, k.KeyInDB), []string{desc})
+						}
+						byKeyOwner[k.KeyInDB] = cls + "|" + id
 						if d.PoolName != pool || d.Namespace != ns || d.PodName != name || d.AppName != wantApp || d.AppTypePrefix != wantType || d.KeyInDB != k.KeyInDB {
 							r.violate("C11", "keys", "parse", "key-does-not-decode-to-its-parts", "ParseKey",
 								fmt.Sprintf("%s -> key %s -> {pool %q type %q ns %q app %q pod %q}, want {pool %q type %q ns %q app %q pod %q}", desc, k.KeyInDB,
